@@ -109,6 +109,17 @@ def cases(tier):
         c["comps"][0]["fixed"], c["comps"][1]["fixed"] = [1 / 64], [26, 21.5]
         c["end"], c["update_cap"] = 30, 20000
         cs.append(c)
+    # a producer whose publication is refused now and then (it hands in malformed data, catches the error and goes on): the driver must go by
+    # what was really published
+    for ch in ([], [F.TOK["L"]], [F.TOK["N"]], [F.TOK["A"]], [F.TOK["F1"]], [F.TOK["P1"]]):
+        for rj in ([1.0], [2.0], [1.0, 2.0], [3.0]):
+            c = F.pair(ch, end=5)
+            c["comps"][0]["reject_at"] = rj
+            cs.append(c)
+    for rj in ([1.0], [2.0, 3.0]):
+        c = F.line3([], [F.TOK["L"]], end=e3)
+        c["comps"][1]["reject_at"] = rj
+        cs.append(c)
     # components with their own clock (ITimeComponent implemented directly)
     for who in ((1,), (0,)):
         for ch in ([], [F.TOK["L"]], [F.TOK["F1"]], [F.TOK["A"]]):
